@@ -8,7 +8,7 @@ from ..asyncworld import PROBE, VERSION_REPLY, AsyncWorld
 from ..common import Report, Violation, short
 
 PROP = "C20"
-EVENTS = [("conn", "ok"), ("timer",), ("conn", "refuse"), ("conn", "stall"), ("lost", "error"), ("lost", "eof"), ("data",), ("send",), ("send-fail",), ("disconnect",), ("stop",)]
+EVENTS = [("conn", "ok"), ("timer",), ("conn", "refuse"), ("conn", "stall"), ("conn", "unreachable"), ("lost", "error"), ("lost", "eof"), ("data",), ("send",), ("send-fail",), ("disconnect",), ("stop",)]
 
 
 class SupervisionMonitor:
@@ -82,7 +82,7 @@ class SupervisionMonitor:
         return viols
 
     def check_intervals(self, world, viols, hist):
-        fails = [(t, how) for t, how in world.attempt_results if how in ("refuse", "timeout")]
+        fails = [(t, how) for t, how in world.attempt_results if how in ("refuse", "timeout", "unreachable")]
         # after each refusal at time t (not followed by stop/disconnect) the next attempt starts at t + R
         for t, how in fails:
             later = [a for a in world.attempts if a > t - 1e-9 and a != t]
@@ -139,13 +139,22 @@ class AsyncSpec(explore.Spec):
 # -- (b) watchdog ----------------------------------------------------------------------------------
 
 
-def watchdog_async(pattern, R=10.0):
-    """Async TCP gateway, fake peer answering probe i after pattern[i] (None = never). Returns observations."""
+def watchdog_async(pattern, R=10.0, sleepy_gateway_node=False):
+    """Async TCP gateway, fake peer answering probe i after pattern[i] (None = never). Returns observations.
+    sleepy_gateway_node: node 0 (the gateway's own sensors) has presented itself and announced smart sleep before
+    the first probe - the probe is the controller's own traffic and must still go out."""
     world = AsyncWorld({"kind": "tcp", "R": R, "max_dev": 99})
     loop = world.loop
     try:
         world.apply(("conn", "ok"))
         link = world.live_link()
+        if sleepy_gateway_node:
+            ver = world.gw.protocol_version
+            wake = "0;255;3;0;32;500" if ver.startswith("2.2") else "0;255;3;0;22;1"
+            for line in (f"0;255;0;0;18;{ver}", "0;1;0;0;3;", "0;1;1;0;2;1", wake):
+                loop.call(link.protocol.data_received, (line + "\n").encode())
+            loop.run_ready()
+            del link.writes[:]
         t0 = loop.time()
         probes = []
         answers = []
@@ -186,7 +195,7 @@ def check_watchdog(chunk):
     for flavour, pattern in chunk:
         stats["latency_patterns"] += 1
         rep = {"kind": "watchdog", "check": PROP, "flavour": flavour, "pattern": list(pattern)}
-        res = watchdog_async(pattern, R)
+        res = watchdog_async(pattern, R, sleepy_gateway_node=flavour == "async-sleepy-node0")
         all_fast = all(lat is not None and lat < R for lat in pattern)
         last_heard = max([res["t0"]] + res["answers"])
         if res["errors"]:
@@ -228,6 +237,7 @@ def run(tier):
     R = 10.0
     lats = [0.0, 0.15, R / 2, 0.95 * R, None]  # 0.15 s: an answer that lands between a probe and the timer's 0.1 s margin
     patterns = [("async", p) for p in itertools.product(lats, repeat=4)]
+    patterns += [("async-sleepy-node0", p) for p in itertools.product([0.0, R / 2, None], repeat=3)]
     v2, s2, m2 = e5.pmap(check_watchdog, patterns)
     report.add_all(v2)
     from . import c20t
